@@ -900,9 +900,10 @@ class Collection(object):
                                 # can't mix modifiers with non-modifiers in
                                 # update
                                 raise ValueError('field names cannot start with $ [{}]'.format(k))
-                        _id = spec.get('_id', existing_document.get('_id'))
+                        has_id = '_id' in existing_document
+                        _id = existing_document.get('_id')
                         existing_document.clear()
-                        if _id is not None:
+                        if has_id:
                             existing_document['_id'] = _id
                         if BSON:
                             # bson validation
@@ -911,7 +912,7 @@ class Collection(object):
                                 _validate_data_fields(document)
                             BSON.encode(document, check_keys=check_keys)
                         existing_document.update(self._internalize_dict(document))
-                        if existing_document['_id'] != _id:
+                        if has_id and existing_document['_id'] != _id:
                             raise OperationFailure(
                                 'The _id field cannot be changed from {0} to {1}'
                                 .format(existing_document['_id'], _id))
@@ -923,8 +924,8 @@ class Collection(object):
                 first = False
             # if empty document comes
             if not document:
-                has_id = '_id' in spec or '_id' in existing_document
-                _id = spec.get('_id', existing_document.get('_id'))
+                has_id = '_id' in existing_document
+                _id = existing_document.get('_id')
                 existing_document.clear()
                 if has_id:
                     existing_document['_id'] = _id
